@@ -4,14 +4,37 @@ import math
 
 import numpy as np
 
+import msgather
 import sysgen
 from c01 import record
 from common import ModelError, R, Rmat, flmat, max_rel_err
 
 from common import wiring_pre_build as pre_build  # noqa: E402,F401
 
-LEAN_MODULES = ["PyomaVerif.Props.C03", "PyomaVerif.Props.C01", "PyomaVerif.Props.WiringRun", "PyomaVerif.Props.C03C11", "PyomaVerif.Props.C03E2E", "PyomaVerif.Props.C03Stored", "PyomaVerif.Props.WiringClass", "PyomaVerif.Props.WiringCalls"]
+LEAN_MODULES = ["PyomaVerif.Props.C03", "PyomaVerif.Props.C01", "PyomaVerif.Props.WiringRun", "PyomaVerif.Props.C03C11", "PyomaVerif.Props.C03E2E", "PyomaVerif.Props.C03Stored", "PyomaVerif.Props.WiringClass", "PyomaVerif.Props.WiringCalls", "PyomaVerif.Props.C03Split", "PyomaVerif.Mutants.MsGather"]
 THEOREMS = [
+    # the split composed with the identification: user's datasets + ref_ind -> pre_multisetup -> what SSI_multi_setup hands to
+    # build_hank -> C03_e2e_* (Props/C03Split.lean, Lemmas/MsGather.lean, Model/MsGather.lean); "after every preprocessing step"
+    # through PV.C14.C14_invariant_multi
+    "PV.C03Split.C03_split_models_agree",
+    "PV.C03Split.C03_split_every_step",
+    "PV.C03Split.C03_data_every_step",
+    "PV.C03Split.C03_handover",
+    "PV.C03Split.C03_e2e_cov_split",
+    "PV.C03Split.C03_e2e_dat_split",
+    "PV.C03Split.CovRec.ok",
+    "PV.C03Split.DatRec.ok",
+    "PV.C03Split.Ex.recovered",
+    "PV.C03Split.ExD.recovered",
+    "PV.Mutants.MsGather.none_ok",
+    "PV.Mutants.MsGather.firstRefs_fails",
+    "PV.Mutants.MsGather.sortedRefs_fails",
+    "PV.Mutants.MsGather.firstCols_fails",
+    "PV.Mutants.MsGather.movFirst_fails",
+    "PV.MsGather.preMultisetupRec_ok",
+    "PV.MsGather.vstack_gather",
+    "PV.MsGather.preSplit_eq_foldl",
+    "PV.C14.C14_invariant_multi",
     # end to end: per-setup records -> Hankel -> per-setup factor -> re-basing -> Obs_all -> realisation -> extraction
     # (Props/C03E2E.lean, Lemmas/MsFreeVib.lean)
     "PV.MsFreeVib.rebase_deficient",
@@ -64,7 +87,10 @@ THEOREMS = [
     "PV.C03Stored.Ex.stored",
 ]
 RULE = (
-    "correspondence: gen.pre_multisetup (all ordered reference subsets incl. duplicates/out-of-range: accepted/rejected and the "
+    "correspondence: record level (op ms_gather on symbolic datasets, every entry compared): gen.pre_multisetup with several "
+    "setups per call incl. a malformed stream, MultiSetup_PreGER.data after construction and after preprocessing steps, and the "
+    "arrays build_hank / svd receive in every pass of SSI_multi_setup (classes and function, dict keys in either order); "
+    "gen.pre_multisetup (all ordered reference subsets incl. duplicates/out-of-range: accepted/rejected and the "
     "split, exact) and ssi.SSI_multi_setup with the per-setup svd/pinv and the final qr/inv recorded in the harness (row "
     "selection, re-basing, interleaving, A[n], C[n] vs the Lean model); oracle: global systems (1..5 modes), 2..4 setups, "
     "1..3 references and 1..4 roving sensors at any positions, per-setup gains over four decades, cov_mm and dat, through "
@@ -72,7 +98,7 @@ RULE = (
     "distinct = (modes, setups, refs, roving counts, method)"
 )
 EXTRA_TRUSTED = ["contracts of np.linalg.svd / pinv / qr / inv, scipy.linalg.eig (as C01)"]
-ASSUMPTIONS = ["setups without any roving sensor are outside the property (pre_multisetup cannot reshape an empty block)", "cases whose per-setup Hankel singular-value gap is below 1e-7 are skipped and counted"]
+ASSUMPTIONS = ["reference indices are non-negative (a negative index makes list.remove raise like any index that is not a channel; the record-level model works with naturals)", "setups without any roving sensor are outside the property (pre_multisetup cannot reshape an empty block)", "cases whose per-setup Hankel singular-value gap is below 1e-7 are skipped and counted"]
 
 
 def _split_cases(ctx, nmax):
@@ -122,6 +148,7 @@ def correspondence(ctx):
         ok = impl_out[0] == mod_out[0] and (impl_out[0] == "rejected" or tuple(map(list, impl_out[1])) == tuple(map(list, mod_out[1])))
         ctx.corr("gen.pre_multisetup[malformed]", ok, {"n": n, "ref": ref}, mod_out, impl_out, ("splitbad", n, tuple(ref)))
         ctx.count("split_" + impl_out[0])
+    _records_streams(ctx)
     # ---- SSI_multi_setup with recorded LAPACK results
     for k in range(ctx.n(8, 150)):
         case = _ms_case(ctx, small=True)
@@ -189,6 +216,98 @@ def correspondence(ctx):
         ctx.corr("ssi.SSI_multi_setup[A,C]", bool(ok), {"br": br, "nref": nref, "nmov": nmov, "ordmax": ordmax}, None, None, ("msAC", ndof, ordmax))
         if k == 0:
             ctx.sample({"setups": len(datasets), "ref_ind": ref_ind, "nmov": nmov, "br": br, "ordmax": ordmax, "method": method, "gains": gains})
+
+
+def _records_streams(ctx):
+    """record level (Model/MsGather.lean, op ms_gather): several setups at once through gen.pre_multisetup, through the
+    MultiSetup_PreGER object (also after a preprocessing step) and on to what SSI_multi_setup hands to build_hank / svd"""
+    from pyoma2.algorithms.ssi import SSIcov_MS, SSIdat_MS
+    from pyoma2.functions import gen, ssi
+    from pyoma2.setup import MultiSetup_PreGER
+
+    rng = ctx.rng
+    g = ctx.nprng()
+    # (a) the function, all setups in one call (cross-setup mix-ups are visible only here), plus a malformed stream
+    for k in range(ctx.n(60, 900)):
+        kind = "valid" if k % 3 else msgather.MALFORMED[(k // 3) % len(msgather.MALFORMED)]
+        shapes, ref_ind = msgather.split_case(rng, kind)
+        datasets = [msgather.label_array(i, *sh) for i, sh in enumerate(shapes)]
+        m = ctx.model("ms_gather", shapes=shapes, ref_ind=ref_ind)
+        try:
+            impl = ("ok", gen.pre_multisetup([d.copy() for d in datasets], [list(r) for r in ref_ind]))
+        except (ValueError, IndexError) as e:
+            impl = ("raise", type(e).__name__)
+        ctx.corr("gen.pre_multisetup[records]", msgather.split_agrees(m, impl, datasets), {"shapes": shapes, "ref_ind": ref_ind},
+                 m.get("raise", "split"), impl[0] if impl[0] == "ok" else impl[1],
+                 ("rec", kind, len(shapes), tuple(len(r) for r in ref_ind)))
+        ctx.count("records_" + ("raise" if "raise" in m else "ok"))
+    # (b) the object: data after construction and after a preprocessing step is the split of the CURRENT datasets by the
+    #     constructor's ref_ind (C03_split_every_step / C03_data_every_step)
+    for k in range(ctx.n(24, 300)):
+        shapes, ref_ind = msgather.split_case(rng, "valid", nmin=40, nmax=90)
+        datasets = [g.standard_normal(tuple(sh)) for sh in shapes]
+        fs = rng.choice([10.0, 100.0, 64.0])
+        ms = MultiSetup_PreGER(fs=fs, ref_ind=[list(r) for r in ref_ind], datasets=[d.copy() for d in datasets])
+        steps = rng.choice([[], ["rollback"], ["detrend"], ["decimate"], ["filter"], ["detrend", "decimate"], ["decimate", "filter"],
+                            ["filter", "rollback"]])
+        for st in steps:
+            if st == "rollback":
+                ms.rollback()
+            elif st == "detrend":
+                ms.detrend_data()
+            elif st == "decimate":
+                ms.decimate_data(q=2)
+            else:
+                ms.filter_data(Wn=ms.fs / 8, order=2)
+        cur = [np.asarray(d) for d in ms.datasets]
+        m = ctx.model("ms_gather", shapes=[list(d.shape) for d in cur], ref_ind=ref_ind)
+        ok = msgather.split_agrees(m, ("ok", ms.data), cur)
+        ctx.corr("MultiSetup_PreGER.data[records]", ok, {"shapes": shapes, "ref_ind": ref_ind, "steps": steps}, None, None,
+                 ("obj", tuple(steps), len(shapes)))
+        ctx.count("object_after_" + ("+".join(steps) or "init"))
+    # (c) the hand-over: what build_hank (and then the svd) receives in every pass of SSI_multi_setup, through the classes
+    #     and through the function with per-setup dicts built 'mov' first
+    for k in range(ctx.n(16, 200)):
+        shapes, ref_ind = msgather.split_case(rng, "valid", nmin=50, nmax=90, same_nref=True)
+        if len(shapes) < 2:
+            shapes, ref_ind = shapes * 2, ref_ind * 2
+        datasets = [g.standard_normal(tuple(sh)) for sh in shapes]
+        nref = len(ref_ind[0])
+        br = rng.randint(2, 3)
+        ordmax = rng.randint(1, (br + 1) * nref)
+        method = rng.choice(["cov_mm", "dat"])
+        m = ctx.model("ms_gather", shapes=shapes, ref_ind=ref_ind)
+        hanks, svds = [], []
+        via = "class" if k % 2 == 0 else "function"
+        shape_all = None
+        with record(ssi, "build_hank", hanks), record(np.linalg, "svd", svds):
+            try:
+                if via == "class":
+                    ms = MultiSetup_PreGER(fs=100.0, ref_ind=[list(r) for r in ref_ind], datasets=[d.copy() for d in datasets])
+                    alg = (SSIcov_MS(name="a", br=br, ordmax=ordmax, method="cov_mm") if method == "cov_mm"
+                           else SSIdat_MS(name="a", br=br, ordmax=ordmax))
+                    ms.add_algorithms(alg)
+                    ms.run_by_name("a")
+                else:
+                    Y = gen.pre_multisetup([d.copy() for d in datasets], [list(r) for r in ref_ind])
+                    Y = [{"mov": y["mov"], "ref": y["ref"]} for y in Y]
+                    shape_all = ssi.SSI_multi_setup(Y, 100.0, br, ordmax, method_hank=method)[0].shape
+            except (ValueError, np.linalg.LinAlgError):
+                ctx.count("handover_tail_raised")
+        ok = "raise" not in m and len(hanks) == len(shapes) == len(svds[: len(shapes)])
+        if ok:
+            for kk, (a, out) in enumerate(hanks):
+                want_all = msgather.realise(m["hank"][kk]["Y_all"], datasets)
+                want_ref = msgather.realise(m["hank"][kk]["Y_ref"], datasets)
+                ok = ok and msgather.same(a[0], want_all) and msgather.same(a[1], want_ref) and a[2] == br
+                # ... and the svd of that pass received the Hankel matrix of exactly these two arrays
+                H = ssi.build_hank(want_all, want_ref, br, method=method, calc_unc=False)[0]
+                ok = ok and msgather.same(svds[kk][0][0], np.asarray(H))
+            if shape_all is not None:
+                ok = ok and tuple(shape_all) == (m["head"]["n_DOF"] * br, ordmax) and m["head"]["n_ref"] == nref
+        ctx.corr("ssi.SSI_multi_setup[hand-over]", bool(ok), {"shapes": shapes, "ref_ind": ref_ind, "br": br, "method": method, "via": via},
+                 None, None, ("handover", via, method, len(shapes), nref))
+        ctx.count("handover_" + via)
 
 
 def _ms_case(ctx, small=False):
